@@ -342,13 +342,16 @@ func (c *Ctx) instr(fr *Frame, st *State, reach string, ins ssa.Instruction) {
 		et := x.Type().(*types.Pointer).Elem()
 		if x.Heap || sliced(x) {
 			if _, isArr := et.Underlying().(*types.Array); isArr {
-				id := "(* 4096 " + c.newRef() + ")"
+				nr := c.newRef()
+				c.localObjs = append(c.localObjs, nr)
+				id := "(* 4096 " + nr + ")"
 				p := PtrV{Kind: 2, ArrId: id, Idx: WHOLE, Elem: et, Root: et.Underlying().(*types.Array).Elem()}
 				fr.env[x] = p
 				c.store(st, p, c.zero(et))
 				return
 			}
 			ref := c.newRef()
+			c.localObjs = append(c.localObjs, ref)
 			fr.env[x] = Sc{ref, "Int"}
 			c.store(st, PtrV{Kind: 1, Ref: ref, Root: et, Elem: et}, c.zero(et))
 			return
@@ -512,7 +515,9 @@ func (c *Ctx) instr(fr *Frame, st *State, reach string, ins ssa.Instruction) {
 		ln := c.toI64(c.val(fr, x.Len), x.Len.Type())
 		cp := c.toI64(c.val(fr, x.Cap), x.Cap.Type())
 		c.oblige("make", "", reach, fmt.Sprintf("(and (bvsle %s %s) (bvsle %s %s) (bvsle %s #x0000ffffffffffff))", i64(0), ln, ln, cp, cp), pos, "make: 0 <= len <= cap")
-		id := "(* 4096 " + c.newRef() + ")"
+		mref := c.newRef()
+		c.localObjs = append(c.localObjs, mref)
+		id := "(* 4096 " + mref + ")"
 		et := x.Type().Underlying().(*types.Slice).Elem()
 		sv := SliceV{id, i64(0), ln, cp, et}
 		// zeroed contents
